@@ -1037,6 +1037,12 @@ def req_C12(r, tier):
         out.append(("ed.double_base:oddB_shifted", "ed.double_base %s %s %s" % (H(0), Bc, H(b))))
     for i in range(8):
         out.append(("ed.seq:torsion", "ed.seq T%d;T1;M1,%s;E0,2;O0;C0;Z5" % (i, H(i))))
+        # every torsion constant as an operand of T-consuming formulas (add, sub, scalar mul), both operand orders
+        out.append(("ed.seq:torsion_add", "ed.seq T%d;G;A0,1;A1,0;S1,0;S0,1;M0,%s;M0,%s;A0,0;B0;N0;A10,0;Z11;V0;V2" % (i, H(3), H(L - 1))))
+        for j in range(8):
+            out.append(("ed.seq:torsion_pair", "ed.seq T%d;T%d;A0,1;S0,1;E0,1;T%d;E2,5" % (i, j, (i + j) % 8)))
+        out.append(("ed.coords:torsion", "ed.coords T%d" % i))
+        out.append(("ed.coords:torsion_add", "ed.coords T%d;G;A0,1" % i))
     out.append(("grp.consts", "grp.consts"))
     for u in (9,):
         out.append(("mont.mul_base", "mont.mul_base " + H(1)))
